@@ -486,7 +486,7 @@ def run_property(pid, tier, seed):
                                            if mode == "cli" else
                                            "real binary, 40+ formulas x {-m -t, -m -t -f true, -m -v, -m -c true|false -t}: exactly one satisfying row / listed model for a satisfiable formula (resp. for what -c X -t prints), none otherwise, and every assignment it covers satisfies it"
                                            if mode == "climodel" else
-                                           "real binary, 36 formulas (incl. bound-before-free names, shadowing, fixed points, extreme constants) x {-t, -t -f true/false/any, -v} against the replay crate's independent evaluator: columns = the free variables in variable order; disjoint rows with the right result on every covered assignment; coverage = all / satisfying / falsifying assignments per filter; -v = exactly the satisfying assignments over free names; identical table / listing through --evaluate, file and stdin, for -b 1/2/3/5 and for the 12 filter spellings"
+                                           "real binary, 36 formulas (incl. bound-before-free names, shadowing, fixed points, extreme constants) x {-t, -t -f true/false/any, -v} against the replay crate's independent evaluator: columns = the free variables in variable order; disjoint rows with the right result on every covered assignment; coverage = all / satisfying / falsifying assignments per filter; -v = exactly the satisfying assignments over free names; identical table / listing through --evaluate, file and stdin, for -b 1/2/3/5 and for the 12 filter spellings; combined options (-r -t -v, -m -t -v, -c X -t -v, ...) print exactly the sections each option prints on its own"
                                            if mode == "clitable" else
                                            "real binary, 14 formulas x 14 ordering files (permutations, subsets, supersets with unused names, duplicates, punctuation, comments, primed names): same satisfying assignments of the same names as the default order; listed variables in file order; -r export fed back with -o reproduces the identical table"),
                                  "failing_input": foundin})
